@@ -236,6 +236,10 @@ func ParseStatic(content []byte, opts ParseStaticOptions) (*Static, error) {
 				for _, service := range serviceIdToService {
 					result.Services = append(result.Services, service)
 				}
+				// Map iteration order is random; order the services by ID.
+				sort.Slice(result.Services, func(i, j int) bool {
+					return result.Services[i].Id < result.Services[j].Id
+				})
 			},
 			Optional: true,
 		},
